@@ -28,7 +28,7 @@ TUpload   == /\ IsEvent("Upload") /\ Upload(R.d, C) /\ ObsOK
 TTransfer == IsEvent("Transfer") /\ Upload(R.d, C) /\ R.res = WriteRes(C) /\ ObsOK
 TRefresh  == /\ IsEvent("Refresh") /\ R.res = WriteRes(C)
              /\ \/ RefreshDisk(R.d, C)
-                \/ (R.sizecls = "eq" /\ RefreshMem(R.d, C))      \* the memory path needs the reported size to be right
+                \/ (R.sizecls \in {"eq", "stream"} /\ RefreshMem(R.d, C))   \* the memory path needs the reported size to equal the stream's length
              /\ ObsOK
 TDrain    == IsEvent("Drain") /\ (DrainStep \/ (drainq = <<>> /\ UNCHANGED vars)) /\ ObsOK
 
